@@ -1,7 +1,7 @@
 """C01 — protect then unprotect returns the plaintext for every input, config and time."""
 from __future__ import annotations
 import uuid
-import prelude, gen, clientsim, refdc, toycrypto, refimpl
+import der, prelude, gen, clientsim, refdc, toycrypto, refimpl
 from check import canon_exc, hx
 
 MANIFEST = {
@@ -15,8 +15,10 @@ RULE = ("plaintext lengths {0,1,15,16,17,31,32,33,4095,4096 (+65535,65536,70001 
         "toy-crypto cases are compared byte for byte with the model, real-crypto cases are round-trip checked; distinct by op line")
 ASSUMPTIONS = ["Crypto.Laws (unwrap∘wrap = id, decrypt∘encrypt = id, ECDH agreement)", "DC replies conforming (reference DC)"]
 
-LENS_Q = [0, 1, 15, 16, 17, 31, 32, 33, 4095, 4096]
-LENS_T = LENS_Q + [65535, 65536, 70001]
+# plaintext lengths: AES block edges, and the lengths at which the ciphertext (plaintext + 16-octet tag) crosses a DER length-form
+# boundary (127/128, 255/256, 65535/65536); the enclosing SEQUENCEs cross the same boundaries a little earlier, hence the dense runs
+LENS_Q = [0, 1, 15, 16, 17, 31, 32, 33, 111, 112, 113, 239, 240, 241, 4095, 4096, 65519, 65520, 65521] + list(range(180, 246, 1))
+LENS_T = LENS_Q + [65535, 65536, 70001] + list(range(60, 130)) + list(range(65000, 65540, 1))
 
 
 def sids(rng, k):
@@ -39,8 +41,7 @@ def clocks(rng, k):
 
 
 def relayout(blob: bytes) -> bytes:
-    from dpapi_ng._blob import DPAPINGBlob
-    return DPAPINGBlob.unpack(blob).pack(blob_in_envelope=False)
+    return der.to_trailing(blob)      # DER surgery, independent of the library's packer
 
 
 def roundtrip(ctx, real, rec, data, sid, now_ns, mode, use_async, cases):
